@@ -125,7 +125,7 @@ fn assemble_with_command(
 		#[cfg(hlorenzi_customasm_verif)]
 		crate::verif::emit("help", vec![]);
 
-		print_usage(command.use_colors);
+		print_usage(report, command.use_colors)?;
 		return Ok(asm::AssemblyResult::new());
 	}
 
@@ -134,7 +134,7 @@ fn assemble_with_command(
 		#[cfg(hlorenzi_customasm_verif)]
 		crate::verif::emit("version", vec![]);
 
-		print_version_full();
+		print_version_full(report)?;
 		return Ok(asm::AssemblyResult::new());
 	}
 
@@ -146,11 +146,11 @@ fn assemble_with_command(
 
 	if !command.quiet
 	{
-		print_version_short();
+		print_version_short(report)?;
 
 		for filename in &command.input_filenames
 		{
-			println!("assembling `{}`...", filename);
+			print_line(report, &format!("assembling `{}`...", filename))?;
 		}
 	}
 
@@ -215,18 +215,18 @@ fn assemble_with_command(
 		{
 			if !command.quiet
 			{
-				println!("");
+				print_line(report, "")?;
 			}
 
-			println!(
-				"{}",
-				String::from_utf8_lossy(&formatted));
+			print_line(
+				report,
+				&String::from_utf8_lossy(&formatted))?;
 		}
 		else if let Some(ref output_filename) = output_group.output_filename
 		{
 			if !command.quiet
 			{
-				println!("writing `{}`...", &output_filename);
+				print_line(report, &format!("writing `{}`...", &output_filename))?;
 			}
 
 			fileserver.write_bytes(
@@ -239,10 +239,12 @@ fn assemble_with_command(
 
 	if !command.quiet
 	{
-		println!(
-			"resolved in {} iteration{}",
-			iterations_taken,
-			if iterations_taken == 1 { "" } else { "s" });
+		print_line(
+			report,
+			&format!(
+				"resolved in {} iteration{}",
+				iterations_taken,
+				if iterations_taken == 1 { "" } else { "s" }))?;
 	}
 
 	#[cfg(hlorenzi_customasm_verif)]
@@ -980,7 +982,10 @@ pub fn format_output(
 }
 
 
-fn print_usage(use_colors: bool)
+fn print_usage(
+	report: &mut diagn::Report,
+	use_colors: bool)
+	-> Result<(), ()>
 {
 	let usage_str = include_str!("usage_help.md");
 	let mut styler = util::StringStyler::new(use_colors);
@@ -1033,12 +1038,47 @@ fn print_usage(use_colors: bool)
 		}
 	}
 
-	println!("");
-	println!("{}", styler.result);
+	print_line(report, "")?;
+	print_line(report, &styler.result)
 }
 
 
-fn print_version_short()
+// Writes a line to the standard output; a failure there
+// (closed pipe, full device) is an error like any other
+fn print_line(
+	report: &mut diagn::Report,
+	text: &str)
+	-> Result<(), ()>
+{
+	use std::io::Write;
+
+	let stdout = std::io::stdout();
+	let mut handle = stdout.lock();
+
+	let result = handle
+		.write_all(text.as_bytes())
+		.and_then(|_| handle.write_all(b"\n"))
+		.and_then(|_| handle.flush());
+
+	match result
+	{
+		Ok(()) => Ok(()),
+		Err(err) =>
+		{
+			report.error(
+				format!(
+					"could not write to the standard output: {}",
+					err));
+
+			Err(())
+		}
+	}
+}
+
+
+fn print_version_short(
+	report: &mut diagn::Report)
+	-> Result<(), ()>
 {
 	let mut version = env!("VERGEN_SEMVER_LIGHTWEIGHT").to_string();
 	if version == "UNKNOWN"
@@ -1054,16 +1094,20 @@ fn print_version_short()
 	}
 
 
-	println!("{} {} ({}{})",
-		env!("CARGO_PKG_NAME"),
-		version,
-		date,
-		env!("VERGEN_TARGET_TRIPLE"));
+	print_line(
+		report,
+		&format!("{} {} ({}{})",
+			env!("CARGO_PKG_NAME"),
+			version,
+			date,
+			env!("VERGEN_TARGET_TRIPLE")))
 }
 
 
-fn print_version_full()
+fn print_version_full(
+	report: &mut diagn::Report)
+	-> Result<(), ()>
 {
-	print_version_short();
-	println!("https://github.com/hlorenzi/customasm");
+	print_version_short(report)?;
+	print_line(report, "https://github.com/hlorenzi/customasm")
 }
